@@ -10,6 +10,16 @@ At entry both inputs are snapshotted (vmon.snap) and the global numpy generator 
 On top of the contract the harness
   * executes every case three times (two different `numpy.random` seeds, and the first seed again after unrelated
     draws) and requires identical products,
+  * edits the fragments in place (re-pose, attachment direction, conformation, anchor element, charge / multiplicity,
+    labels, partial charges, another joinable atom) and joins the SAME objects again: the contract judges that call against
+    its own entry snapshots and the product must equal that of fresh copies (nothing remembered from earlier joins),
+  * edits the product afterwards and re-compares the inputs (the product is a new molecule),
+  * passes the same structure on both sides (same atom / two different joinable atoms) and two conformers of one
+    ensemble (fragments sharing their Atom and Bond objects),
+  * decouples "attachment point" from AtomType.AttachmentPoint: fragments with 0..3 atoms of that type, joined at one
+    of them or at an ordinary one-bond atom,
+  * runs the real `molli combine` on core libraries with 2..3 cores whose attachment points stand at different indices,
+    with -a labels that name several atoms, in every mode, with and without -b,
   * drives the real `molli.scripts.combine._ml_assemble` on cores with 2..4 attachment points with the attachment
     indices computed exactly as the command line does (default order and `-a LABEL` order) and compares the product
     with an independently computed constitution.
@@ -24,12 +34,18 @@ ID = "C12"
 LEVEL = "exploration"
 RULE = ("seeded random 3-D tree/ring fragments (2..15 atoms incl. the attachment point; rich atom/bond fields; attachment "
         "point = Atom(Unknown, AttachmentPoint) with exactly one bond, placed at any index and on any atom), random poses, "
-        "dist in {None, 0.9..2.5}, optimize_rotation off/on, charges -2..2, mult 1..3, overrides incl. 0, requested bond "
+        "dist in {None, 0.3..9.0 as Python float / int / numpy scalar}, optimize_rotation off/on, charges -2..2, mult 1..3, overrides incl. 0, requested bond "
         "type/stereo/order; attachment vectors in general position, exactly parallel, exactly antiparallel, within 1e-7 of "
         "those, along coordinate axes and at the switch of the rotation's antiparallel branch; every case run 3x under "
         "different global numpy.random states; plus iterated joins through the real _ml_assemble on cores with 2..4 "
         "attachment points (indices in ascending and in user label order, sub-selections, repeated substituents) and the "
         "joins issued by the CDXML parser for nested fragments of the bundled drawings. "
+        "Added after the gap review: fragments with 0..3 AttachmentPoint-typed atoms joined at one of them or at an ordinary "
+        "one-bond atom; the same structure on both sides (same / different join atoms) and two conformers of one ensemble; "
+        "every direct case joined once more after random in-place edits of the fragments (and compared with the join of "
+        "fresh copies), then the product is edited and the inputs re-compared; distinct partial charges on 60 % of the "
+        "molecules; `molli combine` on libraries of 2..3 cores with attachment points at different indices, repeated "
+        "attachment labels, modes same/permutns/combns/combns_repl, -b 1..3. "
         "non-trivial = both fragments have >= 3 atoms and B has a centre with >= 3 neighbours (assemblies: core >= 3 atoms "
         "and a substituent with such a centre); distinct by hash of both input snapshots and the call parameters")
 ASSUMPTIONS = [
@@ -38,7 +54,17 @@ ASSUMPTIONS = [
     "(1e-6*0.9 < 1 + cos <= 1e-4) the Rodrigues formula divides by 1+cos and loses up to 1.5e-9 of orthogonality "
     "(measured): the tolerance there is 1e-7 * scale",
     "the default bond length is the sum of the single-bond covalent radii of the two anchors (carbon's radius when an "
-    "element has none), as Bond.expected_length documents; dist=0 or negative is not exercised",
+    "element has none), as Bond.expected_length documents; dist=0 or negative is not exercised; a requested length is "
+    "any positive number (int, float, numpy scalar), compared after float()",
+    "an atom join may be asked to join at is any atom with exactly one bond (join's own assertion), whatever its "
+    "AtomType; attachment points elsewhere in the fragment are ordinary atoms of the product",
+    "partial charges are compared only when the product and both inputs expose atomic_charges (exact to 1e-12)",
+    "the comparison with fresh copies trusts the copy constructors Molecule(m) / Structure(s) (C06) and is skipped when "
+    "the copy's snapshot differs from the original's",
+    "combns / combns_repl product names are compared per product as a multiset of substituents (the order inside one "
+    "name follows the order in which the library lists the substituents, which the statement does not fix); "
+    "--hadd, --obopt and -n > 1 are not exercised (hydrogen completion is C16's subject, worker processes are outside "
+    "the in-process contract)",
     "mult=0 as an override is accepted as either 0 or what the class constructor makes of mult=0 (molli normalises it to 1)",
     "bonds are compared as a multiset with unordered endpoints (bond order in the table is not part of the statement)",
     "the end-to-end geometry of assembled products (several joins in sequence) is compared at 1e-7 * scale; every "
@@ -54,9 +80,11 @@ EXHAUSTIVE = False
 TECHNIQUE = ("runtime monitoring: hand-written contract (entry snapshots, named post-conditions, explicit error classes) on "
              "the real Structure.join + hidden-state replicas + constitution oracle for molli combine's iterated join")
 LEVEL_TEXT = ("Held on the executions produced: every call of Structure.join made by the workload (direct calls in nine "
-              "attachment-vector regimes and the calls issued by the real _ml_assemble) is checked at exit against 19 named "
+              "attachment-vector regimes and the calls issued by the real _ml_assemble) is checked at exit against 20 named "
               "post-conditions computed from snapshots taken at entry; products of three runs under different global RNG "
-              "states are compared. Not a proof: reach is that of the generator.")
+              "states are compared; the same objects are joined again after in-place edits and compared with fresh copies; "
+              "`molli combine` is run on multi-core libraries against a name/constitution oracle. "
+              "Not a proof: reach is that of the generator.")
 LEVEL_NOTE = ("Trusted: vmon/snap.py, numpy, molli's element table (covalent radii) and public accessors "
               "(atoms, bonds, coords, charge, mult, get_atom, index_atom, attachment_points, yield_atoms_by_label).")
 
@@ -85,6 +113,41 @@ def REQUIRED(tier):
         "assemble.order.ascending": 30 * k,
         "assemble.order.non-ascending": 20 * k,
         "case.fragment-atoms-lent": 50 * k, "combine-cli.runs": 10 * k, "combine-cli.products": 30 * k,
+        # --- added after the gap review
+        # the same structure on both sides / fragments sharing their Atom objects (conformers of one ensemble)
+        "contract.join.same-object-on-both-sides": 150 * k,
+        "contract.join.fragments-share-atom-objects": 150 * k,
+        "case.self.same-structure-same-atom": 50 * k,
+        "case.self.same-structure-different-atoms": 30 * k,
+        # join atom decoupled from AtomType.AttachmentPoint; fragments with 0 / 2 / 3 atoms of that type
+        "case.join-atom.A.ordinary-while-typed-attachment-point-elsewhere": 50 * k,
+        "case.join-atom.B.ordinary-while-typed-attachment-point-elsewhere": 50 * k,
+        "case.typed-attachment-points.B.0": 50 * k,
+        "case.typed-attachment-points.B.2": 50 * k,
+        "case.typed-attachment-points.B.3": 25 * k,
+        # requested length of any size / numeric type
+        "case.dist.outside-0.9-2.5": 60 * k,
+        "case.dist.above-3": 30 * k,
+        "case.dist.not-a-python-float": 50 * k,
+        # partial charges follow their atoms
+        "contract.join.partial-charges-nonzero-checked": 1500 * k,
+        # the same objects joined again after in-place edits; product edited afterwards
+        "rejoin.calls": 500 * k,
+        "rejoin.compared-with-fresh-copies": 400 * k,
+        "rejoin.edit.repose": 100 * k,
+        "rejoin.edit.repose-in-place": 100 * k,
+        "rejoin.edit.move-join-atom": 100 * k,
+        "rejoin.edit.other-join-atom": 200 * k,
+        "assemble.calls-after-re-pose": 30 * k,
+        "product-edit.inputs-compared": 500 * k,
+        # molli combine on libraries with several cores, labels naming several atoms, every mode, batching
+        "combine-cli.multi-core.runs": 20 * k,
+        "combine-cli.multi-core.cores-with-different-attachment-indices": 15 * k,
+        "combine-cli.constitution-ok.second-or-later-core": 50 * k,
+        "combine-cli.label-naming-several-atoms": 6 * k,
+        "combine-cli.mode.same": 3 * k, "combine-cli.mode.combns": 3 * k, "combine-cli.mode.combns_repl": 3 * k,
+        "combine-cli.mode.permutns": 8 * k,
+        "combine-cli.batchsize-given": 8 * k,
     }
 
 
@@ -93,13 +156,16 @@ def REQUIRED(tier):
 
 def plan(tier, seed):
     if tier == "quick":
-        nj, perj, na, pera = 32, 36, 12, 12
+        nj, perj, na, pera, ns, pers, nc, perc = 32, 36, 12, 12, 8, 24, 8, 5
     else:
-        nj, perj, na, pera = 150, 200, 60, 50
+        nj, perj, na, pera, ns, pers, nc, perc = 150, 200, 60, 50, 40, 120, 32, 20
     joins = [{"kind": "join", "chunk": i, "n": perj} for i in range(nj)]
     asms = [{"kind": "assemble", "chunk": i, "n": pera} for i in range(na)]
+    selfs = [{"kind": "self", "chunk": i, "n": pers} for i in range(ns)]
+    clis = [{"kind": "cli", "chunk": i, "n": perc} for i in range(nc)]
     # (order only matters for which samples the evidence shows first)
-    return [joins[0], asms[0], {"kind": "cdxml", "chunk": 0}] + joins[1:] + asms[1:]
+    return ([joins[0], asms[0], {"kind": "cdxml", "chunk": 0}, selfs[0], clis[0]] + clis[1:] + joins[1:] + asms[1:]
+            + selfs[1:])
 
 
 # ---------------------------------------------------------------------------------------------------------------
@@ -276,8 +342,8 @@ def _observe_entry(cls, args, kwargs):
             return None
         vals.append(kwargs[n])
     A, B, ra, rb = vals
-    if A is B:
-        return None
+    # A may be B (a dimer of one object) and A, B may share their Atom objects (two conformers of one ensemble):
+    # everything below is computed by position inside each fragment, never through an atom -> atom map over both
     o = _Obs()
     o.cls, o.A, o.B = cls, A, B
     o.opts = {k: kwargs[k] for k in OPTION_NAMES if k in kwargs}
@@ -659,6 +725,36 @@ def post_mult(o):
                 "_key": "override-zero-ignored" if not given else "join:mult-override-ignored"}
 
 
+def post_partial_charges_follow_their_atoms(o):
+    """per-atom data held by the molecule: when the product and both inputs carry partial charges, every atom of the
+    product carries the value it had in its fragment"""
+    if o.sR is None:
+        return SKIP
+    import numpy as np
+
+    qa, qb, qr = o.sA.get("atomic_charges"), o.sB.get("atomic_charges"), o.sR.get("atomic_charges")
+    if qa is None or qb is None or qr is None:
+        return SKIP
+    qa, qb, qr = (np.asarray(x, dtype=float) for x in (qa, qb, qr))
+    if qa.shape != (o.nA,) or qb.shape != (o.nB,):
+        return SKIP
+    exp = np.concatenate([qa[o.keepA], qb[o.keepB]])
+    if qr.shape != exp.shape:
+        return {"shape_observed": list(qr.shape), "shape_expected": list(exp.shape),
+                "_key": "join:partial-charges:wrong-shape"}
+    bad = np.flatnonzero(~(np.abs(qr - exp) <= 1e-12))
+    if len(bad):
+        n = int(bad[0])
+        return {"first_atom": n, "observed": float(qr[n]), "expected": float(exp[n]), "n_wrong": int(len(bad)),
+                "atom_is_from": "A" if n < o.nA - 1 else "B", "_key": "join:partial-charges:not-following-their-atoms"}
+    if np.any(exp != 0):
+        o.pcharge_informative = True
+
+
+class PartialChargesWrong(JoinContractError):
+    key = "join:partial-charges"
+
+
 def _input_diff(before, after):
     from vmon.snap import diff
 
@@ -701,6 +797,7 @@ POSTCONDITIONS = [
     (post_B_attached_along_its_attachment_vector, BNotAttachedAlongItsVector),
     (post_charge, ChargeWrong),
     (post_mult, MultWrong),
+    (post_partial_charges_follow_their_atoms, PartialChargesWrong),
     (post_input_A_unchanged, InputAMutated),
     (post_input_B_unchanged, InputBMutated),
     (post_global_rng_state_unchanged, GlobalRngAdvanced),
@@ -783,6 +880,12 @@ def _make_contracted_join(func):
                     MON.count("contract.join.handedness-centres", o.centres_checked)
                 if getattr(o, "global_handedness", False):
                     MON.count("contract.join.handedness-global")
+                if getattr(o, "pcharge_informative", False):
+                    MON.count("contract.join.partial-charges-nonzero-checked")
+                if o.A is o.B:
+                    MON.count("contract.join.same-object-on-both-sides")
+                elif o.nA and o.nB and o.A.atoms[0] is o.B.atoms[0]:
+                    MON.count("contract.join.fragments-share-atom-objects")
                 MON.last = o
             return result
         finally:
@@ -974,9 +1077,35 @@ def build(spec, cls, rng=None):
     m = cls(atoms, name=spec["name"], charge=spec["charge"], mult=spec["mult"], coords=np.array(spec["coords"]))
     for i, j, kw in spec["bonds"]:
         m.connect(i, j, **{k: (dict(v) if isinstance(v, dict) else v) for k, v in kw.items()})
-    if rng is not None and isinstance(m, Molecule) and rng.random() < 0.5:
-        m.atomic_charges = np.array([rng.choice([0.0, 0.25, -0.5]) for _ in atoms])
+    if rng is not None and isinstance(m, Molecule) and rng.random() < 0.6:
+        # distinct values: any permutation, shift or mix-up of the two fragments' rows shows in the product
+        m.atomic_charges = np.array([round(rng.uniform(-1.0, 1.0), 4) + 0.0001 * (i + 1) for i, _ in enumerate(atoms)])
     return m
+
+
+def pick_join(rng, spec, ordinary=False):
+    """choose the atom join will be asked to join at.  join is specified for 'individual atoms' with exactly one bond:
+    that is an atom of type AttachmentPoint or (ordinary=True) any other one-bond atom (a hydrogen / halogen to be
+    replaced), whatever attachment points the fragment carries elsewhere.  Returns False if the spec offers none."""
+    deg, nb = {}, {}
+    for i, j, _ in spec["bonds"]:
+        for x, y in ((i, j), (j, i)):
+            deg[x] = deg.get(x, 0) + 1
+            nb[x] = y
+    aps = set(spec["aps"])
+    leaves = [i for i in range(len(spec["atoms"])) if deg.get(i) == 1 and i not in aps]
+    spec["joinable"] = sorted(set(leaves) | aps)
+    if ordinary and leaves:
+        i = rng.choice(leaves)
+    elif spec["aps"]:
+        i = rng.choice(spec["aps"])
+    elif leaves:
+        i = rng.choice(leaves)
+    else:
+        return False
+    spec["join"], spec["janchor"] = i, nb[i]
+    spec["nb1"] = {i: nb[i] for i in spec["joinable"]}
+    return True
 
 
 def pose(rng, X, spread=15.0):
@@ -1012,10 +1141,26 @@ def make_pair(rng, cat):
             return rng.randrange(1, 3)
         return rng.randrange(2, 15)
 
-    sa = frag_spec(rng, size(), ring=rng.random() < 0.35, prefix="a", name="A")
-    sb = frag_spec(rng, size(), ring=rng.random() < 0.35, prefix="b", name="B")
+    def one(prefix, name):
+        # 60 %: the classic fragment (one atom of type AttachmentPoint, joined there); otherwise 0..3 atoms of that
+        # type and the join atom either one of them or an ordinary one-bond atom
+        for _ in range(50):
+            if rng.random() < 0.6:
+                n_ap, ordinary = 1, False
+            else:
+                n_ap, ordinary = rng.choice([0, 0, 1, 2, 2, 3]), rng.random() < 0.6
+            n_real = size()
+            if n_ap == 0:
+                n_real = max(2, n_real)
+            sp = frag_spec(rng, n_real, n_ap=n_ap, ring=rng.random() < 0.35, prefix=prefix, name=name,
+                           ap_labels=("AP", "AP2", "AP3"))
+            if pick_join(rng, sp, ordinary):
+                return sp
+        raise RuntimeError("no joinable fragment generated")
+
+    sa, sb = one("a", "A"), one("b", "B")
     XA, XB = pose(rng, sa["coords"]), pose(rng, sb["coords"])
-    iA, kA, iB, kB = sa["aps"][0], sa["anchors"][0], sb["aps"][0], sb["anchors"][0]
+    iA, kA, iB, kB = sa["join"], sa["janchor"], sb["join"], sb["janchor"]
     sub = cat
     if cat not in ("general", "general-small"):
         q = lambda X: np.round(X * GRID) / GRID  # noqa: E731  (differences and small multiples stay exact)
@@ -1065,8 +1210,16 @@ def make_params(rng):
         pass
     elif r < 0.5:
         p["dist"] = None
-    else:
+    elif r < 0.8:
         p["dist"] = rng.choice([0.9, 2.5, round(rng.uniform(0.9, 2.5), 3), rng.uniform(0.9, 2.5)])
+    elif r < 0.9:
+        # "the requested length" has no chemical bounds in the statement: short and long bonds
+        p["dist"] = rng.choice([rng.uniform(0.3, 0.9), rng.uniform(2.5, 4.0), rng.uniform(4.0, 9.0), 3.0, 3.2, 5.0, 0.5])
+    else:
+        # ... and no type beyond "a number": Python int, numpy scalars
+        import numpy as np
+        p["dist"] = rng.choice([1, 2, 3, np.float32(1.25), np.float32(rng.uniform(0.9, 2.5)), np.float64(1.75),
+                                np.float64(rng.uniform(0.5, 4.0)), np.int64(2), np.float16(1.5), 4])
     r = rng.random()
     if r < 0.45:
         p["optimize_rotation"] = rng.choice([True, True, 1, 12])
@@ -1122,10 +1275,216 @@ def _flush_counts(ctx):
 # ---------------------------------------------------------------------------------------------------------------
 # workload: direct joins
 
+EDITS = ("repose", "repose-in-place", "move-join-atom", "flex", "anchor-element", "charge-mult", "relabel",
+         "partial-charges")
+
+
+def edit_fragment(rng, F, i, k, what):
+    """edit fragment F in place through public accessors, the way a user re-poses / re-types a substituent between two
+    joins; i = join atom, k = its neighbour.  True if the edit was applied."""
+    import numpy as np
+    from vmon import gen
+    from molli.chem import Element
+
+    X = np.array(F.coords, dtype=float)
+    if what in ("repose", "repose-in-place"):
+        X = X @ gen.random_rotation(rng) + np.array([rng.uniform(-8, 8) for _ in range(3)])
+        if what == "repose":
+            F.coords = X
+        else:
+            F.coords[...] = X          # written through the array the accessor hands out
+            if not np.array_equal(np.asarray(F.coords), X):
+                F.coords = X
+    elif what == "move-join-atom":     # the attachment direction alone changes
+        X[i] = X[k] + _runit(rng) * rng.uniform(0.8, 1.6)
+        F.coords = X
+    elif what == "flex":               # a new conformation
+        F.coords = X + np.array([[rng.uniform(-0.08, 0.08) for _ in range(3)] for _ in range(len(X))])
+    elif what == "anchor-element":     # the default bond length changes
+        F.atoms[k].element = rng.choice([Element.N, Element.S, Element.Si, Element.Br, Element.C, Element.H, Element.Fe])
+    elif what == "charge-mult":
+        F.charge = F.charge + rng.choice([1, -1])
+        F.mult = rng.choice([1, 2, 3])
+    elif what == "relabel":
+        for n, a in enumerate(F.atoms):
+            if n != i and rng.random() < 0.5:
+                a.label = f"{a.label}~"
+    elif what == "partial-charges":
+        if getattr(F, "atomic_charges", None) is None:
+            return False
+        F.atomic_charges = np.array([round(rng.uniform(-1, 1), 4) for _ in range(len(X))])
+    return True
+
+
+def _ref(F, form, i, spec_label):
+    return {"atom": F.atoms[i], "index": i, "label": spec_label}[form]
+
+
+def execute_case(ctx, case, rng, jcls, A, B, iA, iB, kA, kB, formA, formB, params, sub, pj, alt=None):
+    """one case of the direct route: three executions under different global generator states, then a join of the SAME
+    objects after in-place edits (compared with the join of fresh copies), then edits of the product"""
+    import numpy as np
+    from molli.chem import Molecule, Structure
+    from vmon.snap import snap, diff, mech_field
+
+    labA, labB = A.atoms[iA].label, B.atoms[iB].label
+    refA, refB = _ref(A, formA, iA, labA), _ref(B, formB, iB, labB)
+    s1, s2, k = rng.randrange(2**31), rng.randrange(2**31), rng.randrange(1, 40)
+    seen = set()
+    prods = []
+    antipar = False
+    last = None
+    for r, (sd, draws) in enumerate([(s1, 0), (s2, 0), (s1, k)]):
+        np.random.seed(sd)
+        if draws:
+            np.random.rand(draws)
+            np.random.normal(size=3)
+        try:
+            R = jcls.join(A, B, refA, refB, **params)
+        except Exception as e:  # noqa
+            fails = MON.drain()
+            _report(ctx, case, fails, seen, replica=r, vectors=sub)
+            if not fails:
+                ctx.violation(f"join:raises:{type(e).__name__}", case=case, error=repr(e)[:300], vectors=sub)
+            prods.append(None)
+            continue
+        if MON.last is not None and MON.last.R is R:
+            antipar = antipar or bool(MON.last.antipar)
+        _report(ctx, case, MON.drain(), seen, replica=r, vectors=sub)
+        prods.append(snap(R))
+        last = R
+    if all(p is not None for p in prods):
+        scale = max(1.0, float(np.abs(prods[0]["coords"]).max()) if prods[0]["coords"].size else 1.0)
+        for r in (1, 2):
+            ctx.count("replicas.compared")
+            d = diff(prods[0], prods[r], rtol=0.0, atol=1e-9 * scale)
+            if d:
+                # the mechanism is the known one only if the contract saw this very case consume the global
+                # generator inside the rotation's antiparallel branch; any other dependence gets its own key
+                rng_seen = "antiparallel-join-uses-global-rng" in seen
+                key = "antiparallel-join-uses-global-rng" if rng_seen else "join:result-depends-on-hidden-state"
+                if (key + "/replicas") not in seen:
+                    seen.add(key + "/replicas")
+                    ctx.count("replicas.differ")
+                    dev = float(np.abs(prods[0]["coords"] - prods[r]["coords"]).max()) \
+                        if prods[0]["coords"].shape == prods[r]["coords"].shape else None
+                    ctx.violation(key, case=case, symptom="two identical calls give different products",
+                                  replica=r, first_difference=[str(x) for x in d[0]], max_coord_difference=dev,
+                                  vectors=sub, params=pj, antiparallel_rotation_branch=antipar)
+
+    # --- the same objects again after the caller edited them in place: nothing remembered from the earlier joins
+    # (attachment vectors, anchors, lengths, charges, labels) may leak into this one.  The contract judges the call
+    # against snapshots taken at its entry; in addition the product must equal that of fresh copies of the fragments.
+    clean_before = not seen
+    applied = []
+    shared = A is B or (len(A.atoms) and len(B.atoms) and A.atoms[0] is B.atoms[0])
+    for _ in range(rng.choice([1, 1, 2, 3])):
+        what = rng.choice(EDITS)
+        side = rng.choice(["A", "B", "B"])
+        F, i, kk = (A, iA, kA) if side == "A" else (B, iB, kB)
+        try:
+            ok = edit_fragment(rng, F, i, kk, what)
+        except Exception:  # this container does not offer the edit (e.g. a conformer's charge)
+            ok = False
+            ctx.count("rejoin.edit-not-offered")
+        if ok:
+            applied.append(f"{what}:{side}")
+            ctx.count("rejoin.edit." + what)
+    if alt is not None and rng.random() < 0.5:
+        # ... or asked for another of its joinable atoms
+        side, j2, k2 = alt
+        if side == "A":
+            iA, kA = j2, k2
+        else:
+            iB, kB = j2, k2
+        applied.append("other-join-atom:" + side)
+        ctx.count("rejoin.edit.other-join-atom")
+    if applied:
+        labA, labB = A.atoms[iA].label, B.atoms[iB].label
+        refA, refB = _ref(A, formA, iA, labA), _ref(B, formB, iB, labB)
+        ctx.count("rejoin.calls")
+        np.random.seed(s1)
+        R2 = None
+        try:
+            R2 = jcls.join(A, B, refA, refB, **params)
+        except Exception as e:  # noqa
+            fails = MON.drain()
+            _report(ctx, case, fails, seen, phase="after-in-place-edit", edits=applied, vectors=sub)
+            if not fails:
+                # the edited fragments may have left join's domain only through "move-join-atom"/"flex", which keep
+                # it; anything else raising here is reported
+                ctx.violation(f"join:raises-after-in-place-edit:{type(e).__name__}", case=case, error=repr(e)[:300],
+                              edits=applied)
+        else:
+            fails = MON.drain()
+            _report(ctx, case, fails, seen, phase="after-in-place-edit", edits=applied, vectors=sub)
+            if fails and clean_before and "stale" not in seen:
+                seen.add("stale")
+                ctx.violation("join:wrong-only-after-fragment-was-edited-in-place", case=case, edits=applied,
+                              contract_keys=sorted({e.key for e in fails}),
+                              symptom="the first joins of these objects met the contract, the join after the edit does not")
+            last = R2
+        if R2 is not None and not shared and type(A) in (Molecule, Structure) and type(B) in (Molecule, Structure):
+            A2, B2 = type(A)(A), type(B)(B)
+            if not diff(snap(A2), snap(A)) and not diff(snap(B2), snap(B)):
+                rA, rB = _ref(A2, formA, iA, labA), _ref(B2, formB, iB, labB)
+                np.random.seed(s1)
+                try:
+                    R3 = jcls.join(A2, B2, rA, rB, **params)
+                except Exception:  # noqa
+                    R3 = None
+                _report(ctx, case, MON.drain(), seen, phase="fresh-copies-of-edited-fragments", edits=applied)
+                if R3 is not None:
+                    ctx.count("rejoin.compared-with-fresh-copies")
+                    p2, p3 = snap(R2), snap(R3)
+                    scale = max(1.0, float(np.abs(p3["coords"]).max()) if p3["coords"].size else 1.0)
+                    d = diff(p2, p3, rtol=0.0, atol=1e-9 * scale)
+                    if d and "history" not in seen:
+                        seen.add("history")
+                        ctx.violation("join:result-depends-on-history-of-the-fragment-objects", case=case, edits=applied,
+                                      first_difference=[str(x) for x in d[0]],
+                                      symptom="objects joined before and then edited give another product than fresh "
+                                              "copies with the same content")
+            else:
+                ctx.count("rejoin.copy-not-faithful-skipped")
+
+    # --- the product is a NEW molecule: editing it must not reach A or B
+    if last is not None:
+        b0A, b0B = snap(A), snap(B)
+        try:
+            for a in last.atoms:
+                a.attrib["_vmon_edit"] = 1
+                a.label = "edited"
+                a.formal_charge = 7
+            for b in last.bonds:
+                b.attrib["_vmon_edit"] = 1
+                b.f_order = 9.0
+                b.label = "edited"
+            c = last.coords
+            c += 1.0
+            q = getattr(last, "atomic_charges", None)
+            if q is not None:
+                q += 0.5
+            if isinstance(getattr(last, "attrib", None), dict):
+                last.attrib["_vmon_edit"] = 1
+            last.charge = last.charge + 1
+        except Exception:  # noqa
+            ctx.count("product-edit.not-offered")
+        ctx.count("product-edit.inputs-compared")
+        for side, b0, F in (("A", b0A, A), ("B", b0B, B)):
+            d = diff(b0, snap(F))
+            if d:
+                key = "join:product-shares-mutable-state-with-input:" + mech_field(d[0][0])
+                if key not in seen:
+                    seen.add(key)
+                    ctx.violation(key, case=case, input=side, first_difference=[str(x) for x in d[0]],
+                                  symptom="editing the product changed a fragment")
+
+
 def run_join_chunk(spec, ctx):
     import numpy as np
     from molli.chem import Molecule, Structure
-    from vmon.snap import snap, diff, snap_hash
+    from vmon.snap import snap, snap_hash
 
     MON.route = "direct"
     for j in range(spec["n"]):
@@ -1140,7 +1499,7 @@ def run_join_chunk(spec, ctx):
         clsB = rng.choice([Molecule, Molecule, Molecule, Structure])
         jcls = rng.choice([Molecule, Molecule, Structure])
         A, B = build(sa, clsA, rng), build(sb, clsB, rng)
-        iA, iB = sa["aps"][0], sb["aps"][0]
+        iA, iB = sa["join"], sb["join"]
         # the fragments' atoms may also be listed in another container (a constructor given atoms adopts them):
         # what the atoms then report as their parent / index must not matter to join
         lent = []
@@ -1154,79 +1513,143 @@ def run_join_chunk(spec, ctx):
                 if rng.random() < 0.3:
                     lent.pop()
         form = rng.choice(["atom", "index", "label"])
-        refA = {"atom": A.atoms[iA], "index": iA, "label": "AP"}[form]
         form2 = rng.choice(["atom", "index", "label"])
-        refB = {"atom": B.atoms[iB], "index": iB, "label": "AP"}[form2]
 
         nA, nB = len(sa["atoms"]), len(sb["atoms"])
         nontrivial = nA >= 3 and nB >= 3 and has_centre3(sb, exclude=(iB,))
         pj = {k: _js(int(v) if hasattr(v, "value") else v) for k, v in params.items()}
-        dkey = (snap_hash(snap(A)), snap_hash(snap(B)), sorted(pj.items()), jcls.__name__)
+        pj["dist_type"] = type(params.get("dist")).__name__
+        dkey = (snap_hash(snap(A)), snap_hash(snap(B)), iA, iB, sorted(pj.items()), jcls.__name__)
         ctx.case(case, dkey=dkey, nontrivial=nontrivial,
                  sample=None if len(ctx.samples) >= 2 else {
                      "route": "direct", "vectors": sub, "nA": nA, "nB": nB, "apA": iA, "apB": iB, "params": pj,
-                     "cls": jcls.__name__, "elementsA": [a["element"].name for a in sa["atoms"]][:8]})
+                     "cls": jcls.__name__, "elementsA": [a["element"].name for a in sa["atoms"]][:8],
+                     "typed_attachment_points": [len(sa["aps"]), len(sb["aps"])],
+                     "join_atom_is_typed_attachment_point": [iA in sa["aps"], iB in sb["aps"]]})
         ctx.count("case.vectors." + ("axis" if sub.startswith("axis") else "general" if sub.startswith("general") else sub))
         if sub.startswith("axis"):
             ctx.count("case.vectors." + sub)
-        ctx.count("case.dist." + ("given" if params.get("dist") is not None else "default"))
-        ctx.count("case.optimize_rotation." + ("on" if params.get("optimize_rotation") else "off"))
-        if "charge" in params and params["charge"] == 0 and params["charge"] is not None:
-            ctx.count("case.override.charge-zero")
-            if sa["charge"] + sb["charge"] != 0:
-                ctx.count("case.override.charge-zero-differs-from-sum")
-        elif params.get("charge") is None:
-            ctx.count("case.override.charge-none")
-        else:
-            ctx.count("case.override.charge-nonzero")
-        if params.get("mult") is not None:
-            ctx.count("case.override.mult-" + ("zero" if params["mult"] == 0 else "nonzero"))
+        for side, sp, i in (("A", sa, iA), ("B", sb, iB)):
+            ctx.count(f"case.join-atom.{side}." + ("typed-attachment-point" if i in sp["aps"] else "ordinary-one-bond-atom"))
+            ctx.count(f"case.typed-attachment-points.{side}.{len(sp['aps'])}")
+            if i not in sp["aps"] and sp["aps"]:
+                ctx.count(f"case.join-atom.{side}.ordinary-while-typed-attachment-point-elsewhere")
+        count_params(ctx, params, sa["charge"] + sb["charge"])
         if nontrivial:
             ctx.count("case.nontrivial")
-
-        # --- three executions under different global generator states
-        s1, s2, k = rng.randrange(2**31), rng.randrange(2**31), rng.randrange(1, 40)
-        seen = set()
-        prods = []
-        antipar = False
-        for r, (sd, draws) in enumerate([(s1, 0), (s2, 0), (s1, k)]):
-            np.random.seed(sd)
-            if draws:
-                np.random.rand(draws)
-                np.random.normal(size=3)
-            try:
-                R = jcls.join(A, B, refA, refB, **params)
-            except Exception as e:  # noqa
-                fails = MON.drain()
-                _report(ctx, case, fails, seen, replica=r, vectors=sub)
-                if not fails:
-                    ctx.violation(f"join:raises:{type(e).__name__}", case=case, error=repr(e)[:300], vectors=sub)
-                prods.append(None)
-                continue
-            if MON.last is not None and MON.last.R is R:
-                antipar = antipar or bool(MON.last.antipar)
-            _report(ctx, case, MON.drain(), seen, replica=r, vectors=sub)
-            prods.append(snap(R))
-        if all(p is not None for p in prods):
-            scale = max(1.0, float(np.abs(prods[0]["coords"]).max()) if prods[0]["coords"].size else 1.0)
-            for r in (1, 2):
-                ctx.count("replicas.compared")
-                d = diff(prods[0], prods[r], rtol=0.0, atol=1e-9 * scale)
-                if d:
-                    # the mechanism is the known one only if the contract saw this very case consume the global
-                    # generator inside the rotation's antiparallel branch; any other dependence gets its own key
-                    rng_seen = "antiparallel-join-uses-global-rng" in seen
-                    key = "antiparallel-join-uses-global-rng" if rng_seen else "join:result-depends-on-hidden-state"
-                    if (key + "/replicas") not in seen:
-                        seen.add(key + "/replicas")
-                        ctx.count("replicas.differ")
-                        dev = float(np.abs(prods[0]["coords"] - prods[r]["coords"]).max()) \
-                            if prods[0]["coords"].shape == prods[r]["coords"].shape else None
-                        ctx.violation(key, case=case, symptom="two identical calls give different products",
-                                      replica=r, first_difference=[str(x) for x in d[0]], max_coord_difference=dev,
-                                      vectors=sub, params=pj, antiparallel_rotation_branch=antipar)
+        # another joinable atom of one of the fragments, for the second phase
+        alt = None
+        for side, sp, i in rng.sample([("A", sa, iA), ("B", sb, iB)], 2):
+            others = [x for x in sp["joinable"] if x != i]
+            if others:
+                x = rng.choice(others)
+                alt = (side, x, sp["nb1"][x])
+                break
+        execute_case(ctx, case, rng, jcls, A, B, iA, iB, sa["janchor"], sb["janchor"], form, form2, params, sub, pj, alt)
         _flush_counts(ctx)
 
+
+def count_params(ctx, params, qsum):
+    d = params.get("dist")
+    ctx.count("case.dist." + ("given" if d is not None else "default"))
+    if d is not None:
+        if not 0.9 <= float(d) <= 2.5:
+            ctx.count("case.dist.outside-0.9-2.5")
+        if float(d) > 3.0:
+            ctx.count("case.dist.above-3")
+        if type(d) is not float:
+            ctx.count("case.dist.not-a-python-float")
+    ctx.count("case.optimize_rotation." + ("on" if params.get("optimize_rotation") else "off"))
+    if "charge" in params and params["charge"] == 0 and params["charge"] is not None:
+        ctx.count("case.override.charge-zero")
+        if qsum != 0:
+            ctx.count("case.override.charge-zero-differs-from-sum")
+    elif params.get("charge") is None:
+        ctx.count("case.override.charge-none")
+    else:
+        ctx.count("case.override.charge-nonzero")
+    if params.get("mult") is not None:
+        ctx.count("case.override.mult-" + ("zero" if params["mult"] == 0 else "nonzero"))
+
+
+# ---------------------------------------------------------------------------------------------------------------
+# workload: the same structure on both sides of the join, and fragments that share their Atom objects
+
+SELF_VARIANTS = ("same-object-same-atom", "same-object-other-atom", "conformers-same-atom", "conformers-other-atom",
+                 "one-conformer-twice", "same-object-same-atom", "conformers-same-atom", "same-object-other-atom")
+
+
+def run_self_chunk(spec, ctx):
+    """join(A, A, x, x) (a dimer of one object), join(A, A, x, y) for a structure with two joinable atoms, and
+    join(c_p, c_q, ...) for two conformers of one ensemble (their atom and bond objects are the same)"""
+    import numpy as np
+    from molli.chem import Molecule, Structure, ConformerEnsemble
+    from vmon.snap import snap, snap_hash
+
+    MON.route = "direct"
+    for j in range(spec["n"]):
+        case = [spec["chunk"], j]
+        if not ctx.want(case):
+            continue
+        rng = ctx.rng("self", *case)
+        variant = SELF_VARIANTS[(j + 3 * spec["chunk"]) % len(SELF_VARIANTS)]
+        other = variant.endswith("other-atom")
+        for _ in range(50):
+            n_ap = rng.choice([2, 2, 3, 1]) if other else rng.choice([1, 1, 2, 0])
+            sp = frag_spec(rng, max(2, rng.randrange(1, 12)), n_ap=n_ap, ring=rng.random() < 0.35, prefix="a", name="A",
+                           ap_labels=("AP", "AP2", "AP3"))
+            if not pick_join(rng, sp, ordinary=rng.random() < 0.3):
+                continue
+            iA = sp["join"]
+            others = [x for x in sp["joinable"] if x != iA]
+            if other and not others:
+                continue
+            break
+        else:
+            raise RuntimeError("no fragment with two joinable atoms generated")
+        iB = rng.choice(others) if other else iA
+        kA, kB = sp["nb1"][iA], sp["nb1"][iB]
+        sp["coords"] = pose(rng, sp["coords"])
+        params = make_params(rng)
+        jcls = rng.choice([Molecule, Molecule, Structure])
+        if variant.startswith("same-object"):
+            A = B = build(sp, rng.choice([Molecule, Molecule, Structure]), rng)
+        else:
+            m = build(sp, Molecule, rng)
+            nc = rng.choice([2, 2, 3])
+            X0 = np.asarray(sp["coords"])
+            XS = []
+            for c in range(nc):
+                X = pose(rng, X0)
+                if rng.random() < 0.6:       # conformers differ internally, too
+                    X = X + np.array([[rng.uniform(-0.1, 0.1) for _ in range(3)] for _ in range(len(X))])
+                XS.append(X)
+            if rng.random() < 0.2:
+                XS[1] = XS[0].copy()         # two conformers with one and the same pose
+            ens = ConformerEnsemble(m, n_conformers=nc, coords=np.array(XS))
+            if rng.random() < 0.6:
+                ens.atomic_charges = np.array([[round(rng.uniform(-1, 1), 4) for _ in range(len(X0))] for _ in range(nc)])
+            p = rng.randrange(nc)
+            q = p if variant == "one-conformer-twice" else rng.choice([x for x in range(nc) if x != p])
+            A, B = ens[p], ens[q]
+        form, form2 = rng.choice(["atom", "index", "label"]), rng.choice(["atom", "index", "label"])
+        n = len(sp["atoms"])
+        nontrivial = n >= 3 and has_centre3(sp, exclude=(iB,))
+        pj = {k: _js(int(v) if hasattr(v, "value") else v) for k, v in params.items()}
+        pj["dist_type"] = type(params.get("dist")).__name__
+        dkey = (variant, snap_hash(snap(A)), snap_hash(snap(B)), iA, iB, sorted(pj.items()), jcls.__name__)
+        ctx.case(case, dkey=dkey, nontrivial=nontrivial,
+                 sample=None if len(ctx.samples) >= 2 else {
+                     "route": "direct", "variant": variant, "n_atoms": n, "apA": iA, "apB": iB, "params": pj,
+                     "cls": jcls.__name__, "input_cls": [type(A).__name__, type(B).__name__],
+                     "same_object": A is B, "typed_attachment_points": len(sp["aps"])})
+        ctx.count("case.self." + variant)
+        ctx.count("case.self.same-structure-" + ("different-atoms" if other else "same-atom"))
+        count_params(ctx, params, 2 * sp["charge"])
+        if nontrivial:
+            ctx.count("case.nontrivial")
+        execute_case(ctx, case, rng, jcls, A, B, iA, iB, kA, kB, form, form2, params, "self:" + variant, pj)
+        _flush_counts(ctx)
 
 # ---------------------------------------------------------------------------------------------------------------
 # workload: iterated joins through molli combine's _ml_assemble
@@ -1442,6 +1865,28 @@ def run_assemble_chunk(spec, ctx):
         if diff(s_core0, snap(core)) or any(diff(a, snap(m)) for a, (_, m) in zip(s_subs0, subs)):
             ctx.violation("assemble:inputs-mutated", case=case)
         ctx.count("assemble.inputs-unchanged-checked")
+        # the same core and substituent objects once more after the caller re-posed them in place (a combinatorial run
+        # joins one substituent object thousands of times): every join inside is judged against its entry snapshots
+        if j % 2 == 0 and outs[0] is not None:
+            for _, m in subs:
+                m.coords = pose(rng, np.array(m.coords, dtype=float), spread=6.0)
+            core.coords = pose(rng, np.array(core.coords, dtype=float), spread=6.0)
+            try:
+                call_assemble(comb, core, aps, combos)
+            except Exception as e:  # noqa
+                fails = MON.drain()
+                _report(ctx, case, fails, seen, phase="after-in-place-re-pose")
+                if not fails:
+                    ctx.violation(f"assemble:raises-after-fragments-were-re-posed:{type(e).__name__}", case=case,
+                                  error=repr(e)[:300])
+            else:
+                fails = MON.drain()
+                clean = not seen
+                _report(ctx, case, fails, seen, phase="after-in-place-re-pose")
+                if fails and clean:
+                    ctx.violation("join:wrong-only-after-fragment-was-edited-in-place", case=case, route="assemble",
+                                  contract_keys=sorted({e.key for e in fails}), edits=["repose:core", "repose:substituents"])
+                ctx.count("assemble.calls-after-re-pose")
         if j % 3 == 1 and len(aps) <= 3:
             run_combine_cli(ctx, comb, case, rng, cs, core, subs, given, seen)
         _flush_counts(ctx)
@@ -1553,6 +1998,180 @@ def assembly_geometry(cs, aps, sub_specs, sp):
 
 
 # ---------------------------------------------------------------------------------------------------------------
+# workload: `molli combine` on core libraries with several cores, repeated attachment labels, every mode, batching
+
+CLI_MODES = ("permutns", "same", "combns", "combns_repl", "permutns", "permutns")
+
+
+def run_cli_chunk(spec, ctx):
+    """the real command on a core library of 2..3 cores whose attachment points stand at different atom indices (and,
+    with -a, carry labels that may repeat inside a core).  Oracle: the set of product names the mode defines for every
+    core, and for every stored product the constitution its name stands for: the k-th substituent named sits at the
+    k-th attachment atom of THAT core (k-th atom matched by the -a labels in command-line order, atoms of one label in
+    atom order; without -a the k-th atom of type AttachmentPoint)."""
+    import contextlib
+    import io
+    import itertools
+    from collections import Counter
+    import molli as ml
+    from molli.chem import Molecule
+
+    comb = import_combine()
+    MON.route = "assemble"
+    for j in range(spec["n"]):
+        case = [spec["chunk"], j]
+        if not ctx.want(case):
+            continue
+        rng = ctx.rng("cli", *case)
+        seen = set()
+        k = rng.choice([1, 2, 2, 3])
+        ncores = rng.choice([2, 2, 3])
+        scheme = "unique" if k == 1 else rng.choice(["unique", "repeated", "repeated"])
+        if scheme == "unique":
+            labelset = [f"L{t + 1}" for t in range(k)]
+        elif k == 2:
+            labelset = ["R", "R"]
+        else:
+            labelset = rng.choice([["R", "R", "Q"], ["R", "R", "R"], ["Q", "R", "R"]])
+        use_labels = scheme == "repeated" or rng.random() < 0.6
+        if use_labels:
+            distinct = sorted(set(labelset))
+            rng.shuffle(distinct)
+            given = distinct[:rng.randrange(1, len(distinct) + 1)]
+        else:
+            given = None
+        cores = []
+        for t in range(ncores):
+            labs = labelset[:]
+            rng.shuffle(labs)     # which label stands on which attachment point differs from core to core
+            cs = frag_spec(rng, rng.randrange(2, 9), n_ap=k, ring=rng.random() < 0.3, prefix=f"c{t}x", ap_labels=labs,
+                           name=f"core{t}")
+            cs["coords"] = pose(rng, cs["coords"])
+            if given:
+                cs["ap_list"] = [i for lbl in given for i, a in enumerate(cs["atoms"]) if a["label"] == lbl]
+            else:
+                cs["ap_list"] = sorted(cs["aps"])
+            cores.append((cs, build(cs, Molecule, rng)))
+        npos = len(cores[0][0]["ap_list"])
+        mode = CLI_MODES[(j + spec["chunk"]) % len(CLI_MODES)]
+        nsub = max(2, npos) + rng.choice([0, 0, 1])
+        subs = []
+        for t in range(nsub):
+            s = frag_spec(rng, rng.randrange(1, 7), ring=rng.random() < 0.3, prefix=f"s{t}x", name=f"sub{t}")
+            s["coords"] = pose(rng, s["coords"])
+            subs.append((s, build(s, Molecule, rng)))
+        batch = rng.choice([None, None, 1, 2, 3])
+        index_lists = [tuple(cs["ap_list"]) for cs, _ in cores]
+        differ = len(set(index_lists)) > 1
+
+        d = ctx.tmp / f"cli-{spec['chunk']}-{j}"
+        d.mkdir(exist_ok=True)
+        pc, ps, po = d / "cores.mlib", d / "subs.mlib", d / "out.mlib"
+        for path, items in ((pc, [m for _, m in cores]), (ps, [m for _, m in subs])):
+            lib = ml.MoleculeLibrary(path, readonly=False, overwrite=True)
+            with lib.writing():
+                for m in items:
+                    lib[m.name] = m
+        argv = [str(pc), "-s", str(ps), "-o", str(po), "--overwrite", "-m", mode]
+        for lbl in given or []:
+            argv += ["-a", lbl]
+        if batch:
+            argv += ["-b", str(batch)]
+        ctx.case(case, dkey=("cli", [snap_hash_of(m) for _, m in cores], [snap_hash_of(m) for _, m in subs], given, mode, batch),
+                 nontrivial=differ and any(len(cs["atoms"]) - k >= 3 for cs, _ in cores),
+                 sample=None if len(ctx.samples) >= 1 else {
+                     "route": "combine-cli", "cores": ncores, "attachment_points": k, "ap_labels": labelset,
+                     "labels_given": given, "indices_per_core": [list(x) for x in index_lists], "mode": mode,
+                     "substituents": nsub, "batchsize": batch})
+        ctx.count("combine-cli.multi-core.runs")
+        ctx.count("combine-cli.mode." + mode)
+        if differ:
+            ctx.count("combine-cli.multi-core.cores-with-different-attachment-indices")
+        if given and any(labelset.count(g) > 1 for g in given):
+            ctx.count("combine-cli.label-naming-several-atoms")
+        if batch:
+            ctx.count("combine-cli.batchsize-given")
+        try:
+            with contextlib.redirect_stdout(io.StringIO()), contextlib.redirect_stderr(io.StringIO()):
+                comb.molli_main(argv)
+        except BaseException as e:  # noqa
+            _report(ctx, case, MON.drain(), seen, route="combine-cli")
+            ctx.violation(f"combine-cli:raises:{type(e).__name__}", case=case, error=repr(e)[:300], labels_given=given,
+                          mode=mode, indices_per_core=[list(x) for x in index_lists], ap_labels=labelset)
+            _flush_counts(ctx)
+            continue
+        _report(ctx, case, MON.drain(), seen, route="combine-cli")
+        out = ml.MoleculeLibrary(po)
+        with out.reading():
+            prods = {kk: out[kk] for kk in out.keys()}
+        # every name the command could legitimately give a product, and what it stands for
+        meaning = {}
+        for ci, (cs, cm) in enumerate(cores):
+            for tup in itertools.product(range(nsub), repeat=npos):
+                meaning["_".join([cm.name] + [subs[t][1].name for t in tup])] = (ci, tup)
+        want = Counter()
+        for ci in range(ncores):
+            if mode == "same":
+                combos = [(t,) * npos for t in range(nsub)]
+            elif mode == "permutns":
+                combos = list(itertools.permutations(range(nsub), npos))
+            elif mode == "combns":
+                combos = list(itertools.combinations(range(nsub), npos))
+            else:
+                combos = list(itertools.combinations_with_replacement(range(nsub), npos))
+            for tup in combos:
+                # combinations: the order inside one product follows the order in which the library lists the
+                # substituents, which is not part of the statement -> compared as a multiset per product
+                want[(ci, tup if mode in ("same", "permutns") else tuple(sorted(tup)))] += 1
+        got = Counter()
+        unknown = []
+        for name in prods:
+            if name not in meaning:
+                unknown.append(name)
+                continue
+            ci, tup = meaning[name]
+            got[(ci, tup if mode in ("same", "permutns") else tuple(sorted(tup)))] += 1
+        if unknown or got != want:
+            miss, extra = want - got, got - want
+            per_core_missing = Counter(ci for (ci, _), n in miss.items() for _ in range(n))
+            whole_core = [ci for ci in range(ncores) if per_core_missing.get(ci) == sum(n for (c, _), n in want.items() if c == ci)]
+            key = ("combine-cli:products-of-a-core-never-built" if whole_core and not extra and not unknown
+                   else "combine-cli:product-names-differ")
+            ctx.violation(key, case=case, mode=mode, labels_given=given, ap_labels=labelset,
+                          missing=[f"core{ci}:{list(t)}" for ci, t in sorted(miss)][:6],
+                          unexpected=[f"core{ci}:{list(t)}" for ci, t in sorted(extra)][:6] + unknown[:4],
+                          n_expected=sum(want.values()), n_observed=len(prods))
+        for name, prod in prods.items():
+            if name not in meaning:
+                continue
+            ci, tup = meaning[name]
+            cs = cores[ci][0]
+            ctx.count("combine-cli.products")
+            ctx.count("combine-cli.multi-core.products")
+            ea, eb = expected_assembly(cs, cs["ap_list"], [subs[t][0] for t in tup])
+            sp, oa, ob = observed_assembly(prod)
+            # what was written to and read from the library went through float32: only the constitution is compared
+            if (ea != oa or eb != ob) and "combine-cli:wrong-product" not in seen:
+                seen.add("combine-cli:wrong-product")
+                ctx.violation("combine-cli:product-stored-under-a-name-is-another-molecule", case=case, product=name,
+                              labels_given=given, attachment_atoms=cs["ap_list"], core_position_in_library=ci,
+                              indices_per_core=[list(x) for x in index_lists], mode=mode,
+                              bonds_missing=sorted((eb - ob).elements())[:3], bonds_unexpected=sorted((ob - eb).elements())[:3],
+                              atoms_missing=sorted((ea - oa).elements())[:2])
+            elif ea == oa and eb == ob:
+                ctx.count("combine-cli.constitution-ok")
+                if ci > 0:
+                    ctx.count("combine-cli.constitution-ok.second-or-later-core")
+        _flush_counts(ctx)
+
+
+def snap_hash_of(m):
+    from vmon.snap import snap, snap_hash
+
+    return snap_hash(snap(m))
+
+
+# ---------------------------------------------------------------------------------------------------------------
 # workload: the joins the CDXML parser issues for nested fragments of the bundled drawings
 
 def run_cdxml_chunk(spec, ctx):
@@ -1605,6 +2224,10 @@ def run_chunk(spec, ctx):
         ctx.count("contract.installed-on." + r)
     if spec["kind"] == "join":
         run_join_chunk(spec, ctx)
+    elif spec["kind"] == "self":
+        run_self_chunk(spec, ctx)
+    elif spec["kind"] == "cli":
+        run_cli_chunk(spec, ctx)
     elif spec["kind"] == "cdxml":
         run_cdxml_chunk(spec, ctx)
     else:
